@@ -88,6 +88,7 @@ class Repo:
 
     def find_function(self, qualname):
         """qualname 'pkg.mod.func' or 'pkg.mod.Class.method[.setter]' -> (Module, FunctionDef)"""
+        qualname = qualname.split('#')[0]      # contract variants: same function, different parameter kinds
         parts = qualname.split('.')
         for cut in range(len(parts) - 1, 0, -1):
             mq = '.'.join(parts[:cut])
